@@ -82,6 +82,7 @@ type Op struct {
 	Sub       *Submission
 	Deadline  time.Duration
 	Legacy    bool
+	Sibling   bool // C01: sent to the sibling log of the same process (its own key and backend)
 	SlowWrite bool // the client reads the response slowly: Write parks before taking the bytes
 
 	mu        sync.Mutex
